@@ -90,3 +90,149 @@ def relref_groups(r, case, n_nodes=(6, 14)):
     have = {f["path"] for f in case["files"]}
     case["files"].extend(f for f in extra if f["path"] not in have)
     return case
+
+
+def scale_inventory(r, tier, kind=None, n_nodes=None, failing=True):
+    """Inventories past the sizes at which an implementation might switch strategy: long include
+    chains, wide include lists, many classes, many nodes, long names; every class appends its name to
+    `order` so that merge order stays observable."""
+    from . import genv as G
+    kind = kind or r.choice(["chain", "fan", "many_nodes", "long_names", "deep_dirs", "diamond_grid"])
+    big = [20, 40, 70] if tier == "quick" else [20, 40, 70, 130, 300]
+    files = []
+
+    def cls_body(name, incs, apps=None):
+        b = {"classes": list(incs), "parameters": G.M([["order", [name]], ["last", name], ["m", G.M([[name.replace(".", "_"), G.I(1)]])]])}
+        if apps is not None:
+            b["applications"] = apps
+        return b
+
+    if kind == "chain":
+        n = r.choice(big)
+        for i in range(n):
+            files.append({"path": "classes/c%03d.yml" % i, "content": cls_body("c%03d" % i, ["c%03d" % (i + 1)] if i + 1 < n else [], ["a%03d" % i] if i % 3 == 0 else ["~a%03d" % (i + 3)])})
+        files.append({"path": "nodes/n.yml", "content": cls_body("n", ["c000"] + (["c%03d" % r.below(n)] if r.chance(1, 2) else []))})
+    elif kind == "fan":
+        n = r.choice([33, 40, 70] if tier == "quick" else [33, 40, 70, 130, 520])
+        for i in range(n):
+            files.append({"path": "classes/f%03d.yml" % i, "content": cls_body("f%03d" % i, [], ["a%03d" % i, "~a%03d" % ((i * 7) % n)])})
+        order = r.shuffle(["f%03d" % i for i in range(n)])
+        files.append({"path": "classes/hub.yml", "content": cls_body("hub", order[: n // 2] + [order[0]])})
+        files.append({"path": "nodes/n.yml", "content": cls_body("n", ["hub"] + order[n // 2:] + [order[1], "hub"], ["a%03d" % r.below(n), "~a%03d" % r.below(n), "a%03d" % r.below(n)])})
+    elif kind == "many_nodes":
+        n = n_nodes or r.choice([70, 130] if tier == "quick" else [70, 130, 520])
+        k = r.range(3, 8)
+        for i in range(k):
+            files.append({"path": "classes/k%d.yml" % i, "content": cls_body("k%d" % i, ["k%d" % (i + 1)] if i + 1 < k and r.chance(1, 2) else [], ["app%d" % i])})
+        for j in range(n):
+            incs = ["k%d" % ((j + d) % k) for d in range(r.range(0, 3))]
+            body = cls_body("n%03d" % j, incs, ["own%03d" % j] + (["~app%d" % (j % k)] if j % 5 == 0 else []))
+            if failing and j % 17 == 3 and r.chance(1, 2):
+                body["parameters"]["m"].append(["boom", "${no:such}"])
+            files.append({"path": "nodes/n%03d.yml" % j, "content": body})
+    elif kind == "long_names":
+        ln = r.choice([24, 33, 65, 130, 250])
+        a = "a" * ln
+        b = "b" * (ln - 1) + "x"
+        files.append({"path": "classes/%s/%s.yml" % (a, b), "content": cls_body(a + "." + b, [".sib"])})
+        files.append({"path": "classes/%s/sib.yml" % a, "content": cls_body(a + ".sib", [])})
+        files.append({"path": "nodes/%s.yml" % ("n" * ln), "content": {"classes": [a + "." + b], "parameters": G.M([["k" * ln, "v" * ln], ["r", "${%s}" % ("k" * ln)], ["e", "x${_reclass_:name:short}y"]]), "applications": ["p" * ln, "~" + "p" * ln, "p" * ln]}})
+    elif kind == "deep_dirs":
+        d = r.choice([9, 17, 33])
+        segs = ["d%d" % i for i in range(d)]
+        files.append({"path": "classes/" + "/".join(segs) + "/leaf.yml", "content": cls_body(".".join(segs + ["leaf"]), ["." * r.range(1, d + 2) + "up"])})
+        for cut in sorted({0, 1, d // 2, d - 1, d}):
+            files.append({"path": "classes/" + "/".join(segs[:cut] + ["up"]) + ".yml", "content": cls_body(".".join(segs[:cut] + ["up"]), [])})
+        files.append({"path": "nodes/" + "/".join(segs[: min(d, 12)]) + "/n.yml", "content": cls_body("n", [".".join(segs + ["leaf"])])})
+        return {"op": "inventory", "config": {"compose_node_name": r.chance(1, 2)}, "files": files, "fam": "scale:" + kind}
+    else:
+        w, h = r.range(3, 6), r.choice([6, 12] if tier == "quick" else [6, 12, 30])
+        for y in range(h):
+            for x in range(w):
+                incs = ["g%02d_%d" % (y + 1, xx) for xx in range(w) if r.chance(60, 100)] if y + 1 < h else []
+                files.append({"path": "classes/g%02d_%d.yml" % (y, x), "content": cls_body("g%02d_%d" % (y, x), incs, ["a%d" % x] if (x + y) % 2 else ["~a%d" % x])})
+        files.append({"path": "nodes/n.yml", "content": cls_body("n", ["g00_%d" % x for x in range(w)])})
+    return {"op": "inventory", "config": {}, "files": files, "fam": "scale:" + kind}
+
+
+def special_files(r, case):
+    """Add directory entries that are neither regular files nor directories but carry a YAML extension (FIFO, socket,
+    link to a device): they define nothing and must never be opened. The case gets a watchdog."""
+    kinds = ["fifo", "fifo", "socket", "devnull"]
+    n = 0
+    for _ in range(r.range(1, 3)):
+        k = r.choice(kinds)
+        where = r.choice(["nodes", "classes", "classes/sub", "nodes/g"])
+        name = r.choice(["pipe", "sock", "dev", "p.q", "init"]) + "." + r.choice(["yml", "yaml"])
+        path = where + "/" + name
+        if any(f["path"] == path for f in case["files"]):
+            continue
+        if k == "devnull":
+            case["files"].append({"path": path, "kind": "symlink", "target": "/dev/null"})
+        else:
+            case["files"].append({"path": path, "kind": k})
+        n += 1
+        if where.startswith("classes") and r.chance(1, 2):
+            # some node tries to include the name the entry would define
+            nm = path[len("classes/"):].rsplit(".", 1)[0].replace("/", ".")
+            for f in case["files"]:
+                if f["path"].startswith("nodes/") and isinstance(f.get("content"), dict):
+                    f["content"].setdefault("classes", []).append(nm)
+                    break
+    case["watchdog_s"] = 10
+    case["fam"] = "special_files"
+    return n
+
+
+def rewrite_step(r, case):
+    """A lifecycle step that edits one class (or node) file in place to content of the same length (so that size and a
+    coarse timestamp cannot tell the versions apart): the instance must render what is on disk now."""
+    import copy
+    cands = [f for f in case["files"] if isinstance(f.get("content"), dict) and isinstance(f["content"].get("parameters"), dict)]
+    if not cands:
+        return None
+    f = r.choice(cands)
+    new = copy.deepcopy(f["content"])
+    changed = False
+    for e in new["parameters"].get("m", []):
+        if e[0] == "last" and isinstance(e[1], str) and e[1]:
+            e[1] = "".join("z" if ch.isalnum() else ch for ch in e[1])
+            changed = changed or e[1] != dict(map(tuple, [(x[0] if isinstance(x[0], str) else str(x[0]), 0) for x in []])).get("", e[1]) or True
+    apps = new.get("applications")
+    if apps:
+        new["applications"] = [("~" if a.startswith("~") else "") + "q" * (len(a) - (1 if a.startswith("~") else 0)) for a in apps]
+        changed = True
+    if not changed:
+        return None
+    return {"rewrite": {"path": f["path"], "content": new}}
+
+
+def linked_inventory(r):
+    """The inventory directory is reached through a symlink and the config file names nodes/classes with `..`:
+    textual normalisation and the OS disagree about which directories are meant (decoys sit at the textual place)."""
+    from . import genv as G
+    def body(name, incs=()):
+        return {"classes": list(incs), "parameters": G.enc({"who": name, "order": [name]})}
+    depth = r.choice([["real", "inv"], ["releases", "v2", "inventory"], ["x", "inv"]])
+    up = r.choice([1, 1, 2]) if len(depth) >= 3 else 1
+    base = depth[: len(depth) - up]          # where ../(../)nodes resolves for the OS
+    files = []
+    ncls = r.range(1, 3)
+    for i in range(ncls):
+        sub = r.choice([[], ["d1"]])
+        files.append({"path": "/".join(base + ["classes"] + sub + ["c%d.yml" % i]), "content": body(".".join(sub + ["c%d" % i]))})
+    cls_names = [".".join(f["path"].split("/")[len(base) + 1:]).rsplit(".", 1)[0] for f in files]
+    for i in range(r.range(1, 3)):
+        sub = r.choice([[], ["g"]])
+        files.append({"path": "/".join(base + ["nodes"] + sub + ["n%d.yml" % i]), "content": body("n%d" % i, r.shuffle(cls_names)[: r.range(0, ncls)])})
+    # decoys where a textual `..` would land: the link's own parent
+    link = r.choice(["current", "live/current"])
+    lexical_base = link.split("/")[:-1]
+    for _ in range(up - 1):
+        lexical_base = lexical_base[:-1]
+    files.append({"path": "/".join(lexical_base + ["nodes", "ghost.yml"]), "content": body("ghost")})
+    files.append({"path": "/".join(lexical_base + ["classes", "ghostc.yml"]), "content": body("ghostc")})
+    compose = r.chance(1, 2)
+    opts = [["nodes_uri", "../" * up + "nodes"], ["classes_uri", "../" * up + "classes"], ["compose_node_name", compose]]
+    return {"op": "inventory", "config": {"inventory_link": [link, "/".join(depth)], "compose_node_name": compose, "file_options": r.shuffle(opts)},
+            "files": files, "fam": "linked_inventory"}
